@@ -15,8 +15,11 @@ let parse_action toks = match toks with
 
 type cfg = { ne : int; nl : int; nsg : int; maxd : int; tbl : (int * int, action list) Hashtbl.t }
 
-let cfg_of toks = match List.map int_of_string toks with
-  | [ne; nl; nsg; maxd] -> { ne; nl; nsg; maxd; tbl = Hashtbl.create 16 }
+(* configuration: ne nl nsg maxd [a<digits>]; the fifth token (arity of each signal index) only concerns the
+   harness: neither the model nor the reference object looks at the arguments of a signal *)
+let cfg_of toks = match toks with
+  | ne :: nl :: nsg :: maxd :: _ ->
+      { ne = int_of_string ne; nl = int_of_string nl; nsg = int_of_string nsg; maxd = int_of_string maxd; tbl = Hashtbl.create 16 }
   | _ -> { ne = 2; nl = 2; nsg = 1; maxd = 3; tbl = Hashtbl.create 16 }
 
 let sc cfg : scripts = fun l s -> try Hashtbl.find cfg.tbl (i l, i s) with Not_found -> []
